@@ -26,7 +26,7 @@ func c08Suffix(t *Tape, x *c08X) []Step {
 	var out []Step
 	for i := 0; i < n; i++ {
 		var l string
-		switch t.Pick(2, 3, 2, 1, 1, 1) {
+		switch t.Pick(2, 3, 2, 1, 1, 1, 1) {
 		case 0:
 			l = "EHLO again.example"
 		case 1:
@@ -37,8 +37,11 @@ func c08Suffix(t *Tape, x *c08X) []Step {
 			l = "NOOP"
 		case 4:
 			l = "RSET"
-		default:
+		case 5:
 			l = "BDAT 0"
+		default:
+			// a LAST chunk with its payload: starts a delivery that may still be pending
+			l = fmt.Sprintf("BDAT 17 LAST\r\nok-after-%d data", i)
 		}
 		x.Suffix = append(x.Suffix, l)
 		out = append(out, Step{Kind: kMarker, Data: []byte(l + "\r\n")})
@@ -86,7 +89,8 @@ func genC08(t *Tape, tier string) *Scenario {
 		}
 	}
 	if x.Kind == 7 {
-		pos = 1 + t.Intn(3)
+		pos = 1 + t.Intn(4)
+		x.Where = []string{"before-helo", "greeted", "after-mail", "after-rcpt", "in-bdat-transfer"}[pos]
 		sc.Srv.TLS = tlsStart
 	}
 	if pos >= 1 {
@@ -100,6 +104,9 @@ func genC08(t *Tape, tier string) *Scenario {
 	}
 	if pos >= 4 {
 		n := t.Intn(40)
+		if t.Chance(1, 3) {
+			n = 0 // an empty chunk opens the transfer; the delivery itself has not started yet
+		}
 		steps = append(steps, Step{Kind: kBdat, Data: line("BDAT %d", n)})
 		if n > 0 {
 			steps = append(steps, Step{Kind: kPayload, Data: mkMessage(maxInt(n, 2))[:n], Wait: 1})
@@ -264,6 +271,12 @@ func checkC08(sc *Scenario, h *History) []Violation {
 				out = append(out, Violation{Rule: "C08.executed-after-giving-up", Detail: fmt.Sprintf("%s(%s) was executed although it follows the %s", e.Kind, e.Arg, c08Kinds[x.Kind]), Witness: wit})
 				break
 			}
+		}
+	}
+	for _, c := range h.Conns {
+		if c.SrvBlockedUnderLock > 0 {
+			out = append(out, Violation{Rule: "C08.deadlock", Detail: "a reply write that blocks for ever (the peer does not read, no write deadline) was issued while Conn.locker was held: the connection can no longer be ended by Server.Close", Witness: wit})
+			break
 		}
 	}
 	// D. nobody is left behind
